@@ -1,7 +1,9 @@
 """C19 — LOESS gives the same fit whichever internal strategy is used."""
+import contextlib
 import glob
 import json
 import os
+import struct
 
 import numpy as np
 
@@ -12,11 +14,17 @@ from .c05 import fmt_fits
 PROP_MODULE = 'PbVerif.Props.C19'
 RULE = ('cases = (x kind, N, total_points, poly_order, delta, weighting options, max_iter); the fit/window/skip selection and the '
         'skip filling are compared exactly with the Lean model on dyadic x; the two memory strategies and compiled/uncompiled kernels '
-        'are compared on the real code; non-trivial = delta > 0 or max_iter >= 1; distinct by canonical tuple')
+        'are compared on the real code; non-trivial = delta > 0 or max_iter >= 1; distinct by canonical tuple; loop kernels: two passes '
+        '(data/weights changed in between, exact-zero weights included) of the Python-source _loess_first_loop / _loess_nonfirst_loops / '
+        '_loess_low_memory on N = 3..12 (33 thorough), total_points from poly_order+1 to N, against the Lean model of the same kernels')
 ASSUMPTIONS = [
     'float comparisons in _determine_fits are exact on dyadic x and delta (the generator uses multiples of 1/8)',
     'np.linalg.solve is deterministic: both memory strategies feed it identical matrices',
     'polynomial reproduction is checked to a conditioning-scaled tolerance (1e-7 relative)',
+    'loop kernels: the kernel vectors of the Python-source kernels equal the Lean model evaluated in IEEE doubles bit for bit '
+    '(NumPy elementwise -, abs, /, *, sqrt are correctly rounded); coefficients/baseline of the Python-source kernels are compared '
+    'with the model in exact rationals (sqrt to 2^-128, exact solve) to 64*eps*total_points*cond(A^T A)*max(|c|, (|A||b| + |A|^2|c|)/|A^T A|) with |A| taken without the kernel factor, local systems with '
+    'cond > 1e10 or exactly singular are counted and skipped',
 ]
 
 
@@ -56,6 +64,260 @@ def loess_cases(ctx, rng):
                             opts['weights'] = (np.round(rng.uniform(0.2, 1.0, n) * 64) / 64).tolist()
                         out.append((n, kind, x, po, tp, float(delta), opts))
     return out
+
+
+
+# ----------------------------------------------------------------------------- loop kernels vs the Lean model
+class _NanEmptyNumpy:
+    """stand-in for the `np` global of pybaselines.polynomial while the Python-source kernels run: `np.empty` returns
+    NaN-filled arrays so that the entries a kernel never writes are visible; everything else is NumPy's"""
+
+    def __getattr__(self, name):
+        return getattr(np, name)
+
+    @staticmethod
+    def empty(shape, *a, **k):
+        return np.full(shape, np.nan, *a, **k)
+
+
+@contextlib.contextmanager
+def nan_empty():
+    import pybaselines.polynomial as P
+    saved = P.np
+    P.np = _NanEmptyNumpy()
+    try:
+        yield
+    finally:
+        P.np = saved
+
+
+QNAN = 0x7FF8000000000000
+
+
+def canon_bits(b):
+    """all NaN patterns are one value (sign and payload of a NaN are not defined by IEEE arithmetic)"""
+    return QNAN if (b & 0x7FF0000000000000) == 0x7FF0000000000000 and (b & 0x000FFFFFFFFFFFFF) else b
+
+
+def fbits(v):
+    return canon_bits(struct.unpack('<Q', struct.pack('<d', float(v)))[0])
+
+
+def run_real_kernels(meta):
+    """two passes of both strategies with the REAL Python-source kernels on the data of `meta`"""
+    import pybaselines.polynomial as P
+    x_raw = np.array(meta['x'], dtype=float)
+    n, po, tp, delta = len(x_raw), meta['poly_order'], meta['total_points'], meta['delta']
+    x = np.polynomial.polyutils.mapdomain(x_raw, np.array([x_raw[0], x_raw[-1]]), np.array([-1., 1.]))
+    vander = np.ascontiguousarray(np.polynomial.polynomial.polyvander(x, po))
+    y1, w1, y2, w2 = (np.array(meta[k], dtype=float) for k in ('y1', 'w1', 'y2', 'w2'))
+    out = {'x': x, 'vander': vander}
+    with K.py_kernels(), nan_empty(), np.errstate(all='ignore'):
+        windows, fits, skips = P._determine_fits(x_raw, n, tp, float(delta))
+        out.update(windows=windows, fits=fits)
+        try:
+            c_f = np.zeros((n, po + 1))
+            kernels, b_f1 = P._loess_first_loop(x, y1, w1, c_f, vander, tp, n, windows, fits)
+            c_l = np.zeros((n, po + 1))
+            b_l1 = P._loess_low_memory(x, y1, w1, c_l, vander, n, windows, fits)
+            out.update(kernels=kernels, b_f1=b_f1, c_f1=c_f.copy(), b_l1=b_l1, c_l1=c_l.copy())
+            b_n2 = P._loess_nonfirst_loops(y2, w2, c_f, vander, kernels, windows, n, fits)
+            b_l2 = P._loess_low_memory(x, y2, w2, c_l, vander, n, windows, fits)
+            out.update(b_n2=b_n2, c_n2=c_f, b_l2=b_l2, c_l2=c_l)
+        except np.linalg.LinAlgError:
+            out['linalg'] = True
+    return out
+
+
+def strategy_problem(out):
+    """property on the real kernels: the cached strategy equals the recomputing one, bit for bit"""
+    if 'b_f1' not in out:
+        return None
+    pairs = [('first-pass baseline', 'b_f1', 'b_l1'), ('first-pass coefs', 'c_f1', 'c_l1')]
+    if 'b_n2' in out:
+        pairs += [('second-pass baseline', 'b_n2', 'b_l2'), ('second-pass coefs', 'c_n2', 'c_l2')]
+    for name, a, b in pairs:
+        if not np.array_equal(out[a], out[b], equal_nan=True):
+            return f'{name} of the caching kernels differs from _loess_low_memory'
+    return None
+
+
+def kernel_cases(ctx, rng):
+    kinds = ['uniform', 'random', 'clustered', 'gap_end']
+    out = []
+    for n in ([3, 4, 5, 7, 9, 12] + ([20, 33] if ctx.thorough else [])):
+        for kind in kinds:
+            for po in (0, 1, 2):
+                for tp in sorted({po + 1, po + 2, po + 3, po + 4, n // 2 + 1, n - 1, n}):
+                    if tp < max(po + 1, 1) or tp > n:
+                        continue
+                    if not ctx.thorough and rng.random() < (0.75 if tp >= po + 3 else 0.9):
+                        continue
+                    x = x_of(rng, n, kind)
+                    span = x[-1] - x[0]
+                    delta = float(rng.choice([0.0, 0.125, 1.125, 0.2 * span]))
+                    y1 = rng.integers(-16, 17, n) / 8
+                    y2 = np.minimum(y1, rng.integers(-16, 17, n) / 8)       # what `use_threshold` does to y
+                    w1 = np.ones(n) if rng.random() < 0.5 else rng.integers(1, 9, n) / 8
+                    w2 = rng.integers(0 if rng.random() < 0.3 else 1, 9, n) / 8   # _tukey_square gives exact zeros
+                    out.append({'x': x.tolist(), 'kind': kind, 'poly_order': po, 'total_points': tp, 'delta': delta,
+                                'y1': y1.tolist(), 'w1': w1.tolist(), 'y2': y2.tolist(), 'w2': w2.tolist(), 'check': 'kernels'})
+    return out
+
+
+def parse_opt(s):
+    return [] if s in ('-', '') else [None if t == 'n' else float(parse_qs(t)[0]) for t in s.split(',')]
+
+
+def parse_rows(s):
+    return [] if s in ('-', '') else [None if r == 'x' else [float(v) for v in parse_qs(r)] for r in s.split(';')]
+
+
+EPS = 2.0 ** -52
+
+
+def compare_pass(tag, meta, out, yv, w, b_py, c_py, kern_py, m_base, m_coefs, ctx, worst):
+    """Python-source kernel results of one pass against the model's exact-rational results"""
+    fits, windows, vander = out['fits'], out['windows'], out['vander']
+    n = len(b_py)
+    written_py = [not np.isnan(v) for v in b_py]
+    written_m = [v is not None for v in m_base]
+    if written_py != written_m:
+        return f'{tag}: baseline entries written by the kernel {np.flatnonzero(written_py).tolist()} vs model {np.flatnonzero(written_m).tolist()}'
+    fitted = set(int(i) for i in fits)
+    for j in range(n):
+        if j not in fitted and (m_coefs[j] is None or np.any(np.asarray(m_coefs[j]) != c_py[j])):
+            return f'{tag}: coefs row {j} of an unfitted point changed'
+    for i, (l, r) in zip(fits, windows):
+        i, l, r = int(i), int(l), int(r)
+        at = kern_py[i] * (vander[l:r].T * w[l:r])
+        g = at @ at.T
+        cond = np.linalg.cond(g) if np.all(np.isfinite(g)) else np.inf
+        if m_coefs[i] is None or not np.isfinite(cond) or cond > 1e10:
+            ctx.count('kernels:fit ' + ('exactly singular' if m_coefs[i] is None else 'ill-conditioned') + ' (skipped)')
+            continue
+        cm = np.asarray(m_coefs[i])
+        # forward error of solve(G, AT b) formed and solved in doubles, G = AT AT^T: eps * cond(G) * (|c| + |G^-1| |AT||b|) (the
+        # second term matters when the right-hand side cancels).  The real kernel entries carry an ABSOLUTE rounding error of a few
+        # eps (1 - d^3 cancels near the window edge) whatever their size, so |AT|, |b| are bounded without the kernel factor (<= 1).
+        at_abs = np.abs(vander[l:r].T * w[l:r])
+        rhs = np.max(at_abs @ np.abs(yv[l:r] * w[l:r]))
+        g2 = np.linalg.norm(g, 2)
+        scale = max(np.max(np.abs(cm)) * max(1.0, np.linalg.norm(at_abs @ at_abs.T, 2) / g2), rhs / g2, 1e-300)
+        tol = 64 * EPS * (r - l) * cond * scale
+        err = float(np.max(np.abs(cm - c_py[i])))
+        berr = abs(m_base[i] - b_py[i])
+        btol = (len(cm) + 1) * tol + 8 * EPS * abs(m_base[i])
+        worst[0] = max(worst[0], err / tol, berr / btol)
+        ctx.count('kernels:fit compared')
+        if not (err <= tol):
+            return f'{tag}: coefs[{i}] (window {l}:{r}) real {c_py[i].tolist()} vs model {cm.tolist()} (cond {cond:.3g}, tol {tol:.3g})'
+        if not (berr <= btol):
+            return f'{tag}: baseline[{i}] (window {l}:{r}) real {b_py[i]!r} vs model {m_base[i]!r} (tol {btol:.3g})'
+    return None
+
+
+def kernels_correspond(ctx, rng, dis):
+    tab = K.kernel_table()
+    compiled_first = tab['_loess_first_loop'][1]
+    cases = kernel_cases(ctx, rng)
+    lines, keep = [], []
+    for meta in cases:
+        out = run_real_kernels(meta)
+        n, po, tp = len(meta['x']), meta['poly_order'], meta['total_points']
+        canon = ('kernels',) + tuple((k, tuple(v) if isinstance(v, list) else v) for k, v in sorted(meta.items()))
+        ctx.case(canon, nontrivial=True, sample={k: meta[k] for k in ('kind', 'poly_order', 'total_points', 'delta')} | {'N': n}
+                 if n == 7 and po == 1 else None)
+        ctx.count('kernels:x:' + meta['kind'])
+        ctx.count('kernels:tp-po:%s' % (tp - po if tp - po < 4 else '>=4'))
+        ctx.count('kernels:outcome:' + ('LinAlgError' if out.get('linalg') else 'ok'))
+        prob = strategy_problem(out)
+        if prob:
+            dis.append(Disagreement('c19.kernels', 'kernels:strategy', f'{prob} (N={n}, tp={tp}, po={po}, delta={meta["delta"]})', meta, True))
+        fs = ','.join(str(int(i)) for i in out['fits'])
+        ws = ';'.join(f'{int(a)},{int(b)}' for a, b in out['windows'])
+        x, vander = out['x'], out['vander']
+        lines.append(f'c19.kernf {fs} {ws} ' + ','.join(str(fbits(v)) for v in x))
+        lines.append(f'c19.loops {po} {fs} {ws} {qs(x)} ' + ';'.join(qs(row) for row in vander) + ' ' +
+                     ' '.join(qs(meta[k]) for k in ('y1', 'w1', 'y2', 'w2')))
+        keep.append((meta, out))
+        # the compiled kernel must produce the same kernel vectors as its Python source
+        if 'kernels' in out and not out.get('linalg'):
+            try:
+                with np.errstate(all='ignore'):
+                    kc, _ = compiled_first(x, np.array(meta['y1']), np.array(meta['w1']), np.zeros((n, po + 1)), vander, tp, n,
+                                           out['windows'], out['fits'])
+                idx = np.asarray(out['fits'], dtype=int)
+                if not np.array_equal(kc[idx], out['kernels'][idx]):
+                    ulp = np.max(np.abs(kc[idx] - out['kernels'][idx])) / EPS
+                    if ulp > 8:
+                        dis.append(Disagreement('c19.kernels', 'kernels:compiled', f'compiled _loess_first_loop kernels differ from the '
+                                                f'Python source by {ulp:.3g} eps (N={n}, tp={tp})', meta, True))
+                    else:
+                        ctx.notes.append('compiled kernel vectors differ from the Python source in the last bits')
+            except Exception as e:   # singular systems raise inside the compiled solver as well
+                ctx.count('kernels:compiled:' + type(e).__name__)
+    res = drive(lines)
+    ctx.traces += len(lines)
+    worst = [0.0]
+    for k, (meta, out) in enumerate(keep):
+        rk, rl = res[2 * k], res[2 * k + 1]
+        n, po, tp = len(meta['x']), meta['poly_order'], meta['total_points']
+        where = f'(N={n}, tp={tp}, po={po}, delta={meta["delta"]}, x={meta["kind"]})'
+        parts = rl.split('|')
+        if rk == 'bad-op' or len(parts) != 6:
+            dis.append(Disagreement('c19.model', 'model:kernels-protocol', f'driver answered {rl[:60]!r} {where}', meta, False))
+            continue
+        flags, m_kern = parts[0], parse_rows(parts[1])
+        if flags != '11':
+            dis.append(Disagreement('c19.model', 'model:strategies', f'the MODEL strategies differ (flags {flags}) {where}', meta, False))
+        m_rows = [[canon_bits(int(t)) for t in row.split(',')] if row != '-' else [] for row in rk.split(';')]
+        if 'kernels' not in out:
+            # the real kernel raised LinAlgError in the first pass: the model must see a degenerate local system
+            m_c1 = parse_rows(parts[3])
+            fitted = [int(i) for i in out['fits']]
+            if all(m_c1[i] is not None for i in fitted):
+                x, vander, w1 = out['x'], out['vander'], np.array(meta['w1'])
+                conds = []
+                for i, (l, r), kq in zip(fitted, out['windows'], [m_kern[i] for i in fitted]):
+                    at = np.asarray(kq) * (vander[int(l):int(r)].T * w1[int(l):int(r)])
+                    conds.append(np.linalg.cond(at @ at.T))
+                if max(conds) < 1e10:
+                    dis.append(Disagreement('c19.model', 'model:linalg', f'_loess_first_loop raised LinAlgError but every local system of the '
+                                            f'model is well conditioned (max cond {max(conds):.3g}) {where}', meta, False))
+            ctx.count('kernels:pass LinAlgError (model degenerate)')
+            continue
+        # (c) kernel vectors: bit-exact against the model in doubles, 2e-15 against the model in rationals
+        bad = None
+        for row, i in zip(m_rows, out['fits']):
+            real = [fbits(v) for v in out['kernels'][int(i)]]
+            if row != real:
+                bad = f'kernel of fit {int(i)}: real bits {real[:4]}… vs model (doubles) {row[:4]}…'
+                break
+            kq = m_kern[int(i)]
+            if kq is None or len(kq) != len(real) or np.max(np.abs(np.asarray(kq) - out['kernels'][int(i)])) > 2e-15:
+                bad = f'kernel of fit {int(i)} differs from the exact tricube kernel by more than 2e-15'
+                break
+        ctx.count('kernels:kernel vectors compared', len(m_rows))
+        if bad:
+            dis.append(Disagreement('c19.model', 'model:kernel-vector', f'{bad} {where}', meta, False))
+            continue
+        if np.isnan(out['kernels'][np.asarray(out['fits'], dtype=int)]).any():
+            # a one-point window: difference / max(difference[0], difference[-1]) is 0/0; the doubles model agrees (NaN),
+            # the rational model is only claimed under `kernel_den_pos`'s guard
+            ctx.count('kernels:0/0 kernel (total_points = 1), rational comparison skipped')
+            continue
+        # (b), (d) what each pass writes
+        prob = compare_pass('pass 1', meta, out, np.array(meta['y1']), np.array(meta['w1']), out['b_l1'], out['c_l1'], out['kernels'],
+                            parse_opt(parts[2]), parse_rows(parts[3]), ctx, worst)
+        if prob is None and 'b_l2' in out:
+            prob = compare_pass('pass 2', meta, out, np.array(meta['y2']), np.array(meta['w2']), out['b_l2'], out['c_l2'], out['kernels'],
+                                parse_opt(parts[4]), parse_rows(parts[5]), ctx, worst)
+        elif prob is None:
+            ctx.count('kernels:pass 2 LinAlgError')
+        if prob:
+            dis.append(Disagreement('c19.model', 'model:kernel-pass', f'{prob} {where}', meta, False))
+    ctx.notes.append(f'loop kernels: worst (error / conditioning-scaled tolerance) = {worst[0]:.3g}')
 
 
 def correspond(ctx):
@@ -177,6 +439,7 @@ def correspond(ctx):
             pred = [float(v) for v in parse_qs(r)]
             if len(pred) != len(e) or not np.allclose(pred, e, rtol=1e-12, atol=1e-12):
                 dis.append(Disagreement('c19.model', 'model:fill', '_fill_skips differs from the Lean model', dict(meta, line=ln[:60]), False))
+    kernels_correspond(ctx, rng, dis)
     return dis
 
 
@@ -208,6 +471,11 @@ def search(ctx, hints, lean_failed):
 def replay(ctx, data):
     from pybaselines import Baseline
     r = data['replay']
+    if r.get('check') == 'kernels':
+        try:
+            return strategy_problem(run_real_kernels(r))
+        except Exception as e:
+            return f'{type(e).__name__}: {e}'
     x, y = np.array(r['x']), np.array(r['y'])
     n = len(x)
     tab = K.kernel_table()
